@@ -22,6 +22,7 @@ type Obligation struct {
 	Desc     string
 	Script   string
 	PathID   int
+	Candidate string // model found without the quantified facts when the full query stayed undecided
 	Expect   string // "unsat" for goals; "sat" for covers/canaries
 	Status   string
 	Solver   string
